@@ -45,12 +45,12 @@ func Int(i int64) Val {
 	}
 	return Val{K: VInt, U: uint64(i)}
 }
-func Uint(u uint64) Val  { return Val{K: VInt, U: u} }
-func Text(s string) Val  { return Val{K: VText, S: s} }
-func Bool(b bool) Val    { return Val{K: VBool, B: b} }
-func F64(f float64) Val  { return Val{K: VF64, F: math.Float64bits(f)} }
-func F32(f float32) Val  { return Val{K: VF32, F: uint64(math.Float32bits(f))} }
-func Arr(a ...Val) Val   { return Val{K: VArr, A: a} }
+func Uint(u uint64) Val { return Val{K: VInt, U: u} }
+func Text(s string) Val { return Val{K: VText, S: s} }
+func Bool(b bool) Val   { return Val{K: VBool, B: b} }
+func F64(f float64) Val { return Val{K: VF64, F: math.Float64bits(f)} }
+func F32(f float32) Val { return Val{K: VF32, F: uint64(math.Float32bits(f))} }
+func Arr(a ...Val) Val  { return Val{K: VArr, A: a} }
 
 // FitsInt64 reports whether an integer value lies in the int64 range.
 func (v Val) FitsInt64() bool {
